@@ -1,8 +1,12 @@
 import Driver.TraceCmd
 import Driver.MerkleCmd
+import Driver.GadgetCmd
 
 def main (args : List String) : IO UInt32 :=
   match args with
   | "trace" :: rest => Driver.traceCmd rest
   | ["corr", "merkle"] => Driver.lineLoop Driver.merkleLine
+  | ["corr", "poseidon"] => Driver.lineLoop Driver.poseidonLine
+  | ["corr", "bits"] => Driver.lineLoop Driver.bitsLine
+  | ["corr", "tree"] => Driver.lineLoop Driver.treeLine
   | _ => do IO.eprintln "usage: driver <trace|corr> …"; pure 2
